@@ -73,6 +73,15 @@ PROPS = {
         "assumptions": ["every try_* is one atomic call in the model; the 'never succeeds in conflict' half under interleavings is covered by the small-step models only"],
         "partial": ["interleavings"],
     },
+    "C15": {
+        "modules": ["ALock.Props.C15"],
+        "prims": ["mutex", "sem", "rwlock"],
+        "fields": ["out", "strong", "dropped"],
+        "monitors": ["C15"],
+        "assumptions": ["Arc itself (counting, drop at zero) is modelled, not verified; the harness reads Arc::strong_count and a payload drop counter after every operation",
+                        "use-after-free that does not change the count is outside this check (Miri would be the tool)"],
+        "partial": ["'dropped exactly once' is tied by the payload drop counter of the harness (Mutex, RwLock); the Semaphore has no payload"],
+    },
     "C11": {
         "modules": ["ALock.Props.C11"],
         "prims": ["rwlock"],
